@@ -53,6 +53,13 @@ def _pack(case):
         return z[::2]
     if pk == "reversed_view":
         return np.array(x[::-1], dtype=float)[::-1]
+    if pk.startswith("series"):
+        # labelled 1-d data ("1d array_like"): the counters go by position, whatever the labels are
+        import pandas as pd
+        n = len(x)
+        idx = {"series": None, "series_revlabels": list(range(n))[::-1],
+               "series_time": (5.0 + 0.01 * np.arange(n)).tolist()}[pk]
+        return pd.Series(np.array(x, dtype=float), index=idx)
     return np.array(x, dtype=float)
 
 
@@ -183,7 +190,7 @@ def seqs(draw):
     kind = draw(st.sampled_from(["ints", "ints_small", "reals", "reversals",
                                  "nested", "ties", "long"]))
     pack = draw(st.sampled_from(["array", "array", "list", "int", "f32",
-                                 "strided", "reversed_view"]))
+                                 "strided", "reversed_view", "series", "series_revlabels", "series_time"]))
     case = {"pack": pack, "pow2": draw(st.integers(-6, 6)),
             "shift": draw(st.integers(-20, 20)),
             "scale": draw(st.sampled_from([3, 5, 7, 10]))}
